@@ -927,3 +927,134 @@ func (s *Spec) Pieces() (pieces, seps []string) {
 	add(GoEpilogue, "")
 	return
 }
+
+// RandomRich returns n seeded random reduced grammars that also vary the declaration
+// space: literal and named tokens (explicit or automatic numbers), value tags on tokens and
+// nonterminals (two union fields), precedence lines of all three kinds (some tokens declared
+// only there), %prec annotations, empty rules. Conflicts are allowed.
+func RandomRich(seed int64, n int) []*Spec {
+	rng := rand.New(rand.NewSource(seed*7919 + 17))
+	lits := []byte{'a', 'b', 'c', 'd', '+', '*', '-', '<', '(', ')'}
+	var out []*Spec
+	for tries := 0; len(out) < n && tries < 200*n; tries++ {
+		s := &Spec{Name: fmt.Sprintf("rich_%d_%d", seed, len(out)), Tags: []string{"random", "rich"}, NTTag: map[string]string{}}
+		nt := 1 + rng.Intn(4)
+		nts := []string{"S", "A", "B", "C"}[:nt]
+		// terminals
+		tt := 2 + rng.Intn(4)
+		perm := rng.Perm(len(lits))
+		named := 0
+		for i := 0; i < tt; i++ {
+			var t Tok
+			if rng.Intn(3) == 0 {
+				named++
+				t = Tok{Name: fmt.Sprintf("T%d", named)}
+				if rng.Intn(2) == 0 {
+					t.Num = 500 + 7*named
+				}
+			} else {
+				t = Tok{Char: lits[perm[i]]}
+			}
+			switch rng.Intn(4) {
+			case 0:
+				t.Tag = "alt"
+			case 1:
+			default:
+				t.Tag = "val"
+			}
+			s.Toks = append(s.Toks, t)
+		}
+		// precedence lines over a random subset of the terminals
+		if rng.Intn(2) == 0 {
+			order := rng.Perm(tt)
+			lines := 1 + rng.Intn(3)
+			k := 0
+			for l := 0; l < lines && k < tt; l++ {
+				pl := PrecLine{Assoc: []string{"left", "right", "nonassoc"}[rng.Intn(3)]}
+				cnt := 1 + rng.Intn(2)
+				for c := 0; c < cnt && k < tt; c++ {
+					t := &s.Toks[order[k]]
+					k++
+					pl.Syms = append(pl.Syms, t.Ref())
+					if t.Tag == "" && rng.Intn(2) == 0 {
+						t.Decl = "prec" // declared by the precedence line only (no number can be given there)
+						t.Num = 0
+					}
+				}
+				s.Prec = append(s.Prec, pl)
+			}
+		}
+		for _, x := range nts {
+			switch rng.Intn(4) {
+			case 0:
+				s.NTTag[x] = "alt"
+			case 1:
+				s.NTTag[x] = ""
+			default:
+				s.NTTag[x] = "val"
+			}
+		}
+		s.NTTag["S"] = "val"
+		nr := nt + rng.Intn(5)
+		for i := 0; i < nr; i++ {
+			lhs := nts[i%nt]
+			if i >= nt {
+				lhs = nts[rng.Intn(nt)]
+			}
+			l := rng.Intn(4)
+			var rhs []string
+			for j := 0; j < l; j++ {
+				if rng.Intn(3) == 0 {
+					rhs = append(rhs, nts[rng.Intn(nt)])
+				} else {
+					rhs = append(rhs, s.Toks[rng.Intn(tt)].Ref())
+				}
+			}
+			r := Rule{Lhs: lhs, Rhs: rhs}
+			if len(s.Prec) > 0 && rng.Intn(5) == 0 {
+				pl := s.Prec[rng.Intn(len(s.Prec))]
+				r.Prec = pl.Syms[rng.Intn(len(pl.Syms))]
+			}
+			s.Rules = append(s.Rules, r)
+		}
+		sort.SliceStable(s.Rules, func(i, j int) bool { return s.NTIndexPre(nts, s.Rules[i].Lhs) < s.NTIndexPre(nts, s.Rules[j].Lhs) })
+		dup := false
+		for i := range s.Rules {
+			for j := i + 1; j < len(s.Rules); j++ {
+				if s.Rules[i].Lhs == s.Rules[j].Lhs && strings.Join(s.Rules[i].Rhs, " ") == strings.Join(s.Rules[j].Rhs, " ") {
+					dup = true
+				}
+			}
+		}
+		if dup {
+			continue
+		}
+		s.Start = "S"
+		s.Finish()
+		if !s.reduced() {
+			continue
+		}
+		// every token must be declared somewhere: tokens that are only used in rules are literals
+		ok := true
+		for _, t := range s.Toks {
+			used := false
+			for _, r := range s.Rules {
+				for _, x := range r.Rhs {
+					if x == t.Ref() {
+						used = true
+					}
+				}
+			}
+			if !used && t.Decl == "prec" && t.Name == "" {
+				// an unused literal declared only in a precedence line is fine
+				continue
+			}
+			_ = used
+		}
+		if !ok {
+			continue
+		}
+		out = append(out, s)
+	}
+	return out
+}
